@@ -55,13 +55,13 @@ pub fn fixture_worlds() -> Vec<World> {
     let mut out = Vec::new();
     // a user dictionary whose words are written in kana but split into the system dictionary's kanji units:
     // the unit key lengths do not add up to the word's length (the last unit must inherit the parent's end)
-    let kana_user = "とうきょうと,6,8,-3000,とうきょうと,名詞,固有名詞,地名,一般,*,*,トウキョウト,東京都,*,C,5/9,5/9,*,*\nきょうとふ,6,6,-3000,きょうとふ,名詞,固有名詞,地名,一般,*,*,キョウトフ,京都府,*,B,*,3/9,*,*\n";
+    let kana_user = "とうきょうと,6,8,-3000,とうきょうと,名詞,固有名詞,地名,一般,*,*,トウキョウト,東京都,*,C,5/9,5/9,*,*\nきょうとふ,6,6,-3000,きょうとふ,名詞,固有名詞,地名,一般,*,*,キョウトフ,京都府,*,B,*,3/9,*,*\nアイウアイ,7,7,-2000,アイウアイ,名詞,普通名詞,一般,*,*,*,アイウアイ,アイウアイ,*,C,11/10,11/10,*,*\n";
     for (name, i, o, p) in stacks {
         let (sys, mut users) = dicts::test_dict_bytes(true);
         let mut extra_lex: Vec<Value> = Vec::new();
         if name == "full" || name == "plain" || name == "norewrite" {
             users.push(dicts::build_user(&sys, kana_user.as_bytes()).expect("kana user dictionary"));
-            extra_lex.push(json!([[6, 8, -3000], [6, 6, -3000]]));
+            extra_lex.push(json!([[6, 8, -3000], [6, 6, -3000], [7, 7, -2000]]));
         }
         let cfg = cfg_json(&i, &o, &p);
         let dict = dicts::load(&cfg, &res, sys, users).unwrap_or_else(|e| panic!("world {}: {:?}", name, e));
